@@ -22,6 +22,9 @@ func init() {
 
 func c14() []*Ob {
 	return []*Ob{
+		{Prop: "C14", ID: "C14.14", Engine: "LOCK(read-modify-write)", Floor: 2,
+			Desc:  "the time borders of an active fraction only widen: Active.UpdateStats computes a new From / To from the fraction's own info only while it holds infoMu for writing (no f.Info() snapshot or field read taken before the lock) — with the read outside, two index workers that finish bulks at the same time overwrite each other's widening, the fraction holds documents outside [From, To] and is pruned for their timestamps by search and fetch",
+			Check: func(c *Ctx) { bordersWidenAtomically(c) }},
 		{Prop: "C14", ID: "C14.12", Engine: "PAIR(two sites)", Floor: 1,
 			Desc:  "the window a sealed fraction is searched in for a fetch never excludes a stored id (shared rule with C04.13)",
 			Check: func(c *Ctx) { findLIDsWindowJustified(c) }},
